@@ -122,17 +122,34 @@ def segs(p: str) -> list[str]:
 
 
 def snapshot(top: str) -> dict[str, bytes]:
-    """relative path -> bytes for every regular file below top (symlinks not followed)"""
+    """relative path -> the bytes that reading that path yields, for everything below top that is
+    not a directory.  Symbolic links are followed, to files and to directories (the statement talks
+    about the bytes at a path, not about how the path is realised; the scenarios make no link
+    cycles); a link that cannot be read (dangling) is recorded with a marker value.  The one link the
+    harness itself puts next to the document directory (file form 'symlink': doclink -> out) is not
+    descended into: it is another name for the same files."""
     out: dict[str, bytes] = {}
     if not os.path.isdir(top):
         return out
-    for root, dirs, files in os.walk(top):
-        dirs.sort()
+    for root, dirs, files in os.walk(top, followlinks=True):
+        dirs[:] = sorted(d for d in dirs if not (d == "doclink" and os.path.islink(os.path.join(root, d))))
         for f in sorted(files):
             full = os.path.join(root, f)
-            with open(full, "rb") as fh:
-                out[os.path.relpath(full, top)] = fh.read()
+            try:
+                with open(full, "rb") as fh:
+                    out[os.path.relpath(full, top)] = fh.read()
+            except OSError:
+                link = os.readlink(full) if os.path.islink(full) else "?"
+                out[os.path.relpath(full, top)] = UNREADABLE + os.fsencode(link)
     return out
+
+
+UNREADABLE = b"\x00C12-unreadable link -> "
+
+
+def readable(snap: dict) -> dict:
+    """for the abstract model a path that cannot be read does not exist"""
+    return {k: v for k, v in snap.items() if not v.startswith(UNREADABLE)}
 
 
 def dirs_below(top: str) -> set[str]:
@@ -808,6 +825,19 @@ class Realised:
             self.msx.append([S(d["name"]), S(str(dep.version)), msrc,
                              [S(p) for p in d["scripts"]], [S(p) for p in d["styles"]],
                              1 if d["all_files"] else 0])
+        # symbolic links inside source directories: [path of the link below the source directory,
+        # "in" | "out", target (below the source directory | below this dependency's store directory,
+        # which lies outside every source directory), absolute?]
+        for i, d in enumerate(sc["deps"]):
+            if not d.get("links"):
+                continue
+            store = os.path.join(top, f"store{i}")
+            write_tree(store, list((d.get("store") or {}).items()))
+            for lp, where, target, absolute in d["links"]:
+                full = os.path.join(self.srcdirs[i], lp)
+                os.makedirs(os.path.dirname(full), exist_ok=True)
+                dest = os.path.join(self.srcdirs[i] if where == "in" else store, target)
+                os.symlink(dest if absolute else os.path.relpath(dest, os.path.dirname(full)), full)
         # import temp packages now so that __pycache__ exists before the first snapshot
         for pkg in self.pkg_names:
             htmltools._util.package_dir(pkg)
@@ -1055,7 +1085,7 @@ class Realised:
 
     def model_fs(self) -> list:
         """everything below top, plus the directories of installed packages that a dependency uses"""
-        out = fs_sx(snapshot(self.top), self.top)
+        out = fs_sx(readable(snapshot(self.top)), self.top)
         for pdir in dict.fromkeys(self.srcdirs[i] for i, d in enumerate(self.sc["deps"]) if d["kind"] == "react"):
             out += fs_sx(snapshot(pdir), pdir)
         return out
@@ -1386,7 +1416,7 @@ def copy_step(ctx: Ctx, r: Realised, mode: str, pending: list, case: dict, reuse
                 os.chdir(old_cwd)
         after_all = snapshot(top)
         # what the model must reproduce: the tree afterwards, without the written document
-        real_after = {os.path.join(top, k): abs_bytes(v) for k, v in after_all.items()
+        real_after = {os.path.join(top, k): abs_bytes(v) for k, v in readable(after_all).items()
                       if os.path.join(top, k) != r.file}
         pending.append(([9, mfs, S(r.docdir), sx_opt(None if r.libdir is None else S(r.libdir)),
                          1 if r.iv else 0, [r.msx[i] for i in r.eff]],
@@ -1480,6 +1510,9 @@ def copy_step(ctx: Ctx, r: Realised, mode: str, pending: list, case: dict, reuse
                 stale_left = sorted(set(got) - set(want))
                 what = ("stale contents of the dependency's target directory remain" if stale_left
                         else "copied files differ from their sources (missing or not byte-identical)")
+                if any(v.startswith(UNREADABLE) for v in got.values()):
+                    what = ("a path below the target directory is a link that cannot be read there (the source path "
+                            "yields bytes: not a byte-identical copy)")
                 viol(what, {"impl_output": sorted(got), "expected": sorted(want)})
             claimed.append(t)
         # a superseded version of a dependency that is in the document: the statement says nothing
@@ -1642,6 +1675,95 @@ def route_scenarios() -> list[dict]:
                              "indent": [None, 0, 2, 7][k % 4], "json_via": ["str", "serialize"][(k // 2) % 2],
                              "empty_deps": k % 5 == 0}})
     return out
+
+
+# --------------------------------------------------------------------------------------
+# source trees with symbolic links
+# --------------------------------------------------------------------------------------
+LINK_FILES = {"app.js": [1, 2], "css/site \u00e9.css": [3], "js/v/w/deep.js": [4], "data/d.bin": [5, 6]}
+LINK_STORE = {"vendor x.js": [7, 7, 7], "sdir/inner \u00e9.css": [8], "sdir/sub/t.js": [9]}
+LINK_LEVELS = {0: "", 1: "js/", 2: "js/v/", 3: "js/v/w/"}
+
+
+def link_dep(name: str, links: list, listed_extra: list, all_files: bool, kind: str = "dir") -> dict:
+    d = simple_dep(name, "1.4", LINK_FILES, scripts=["app.js"] + [p for p in listed_extra if not p.endswith(".css")],
+                   styles=[p for p in listed_extra if p.endswith(".css")], kind=kind, all_files=all_files,
+                   stale={"old.txt": [9], "js/stale.js": [8]})
+    d["links"], d["store"] = links, dict(LINK_STORE)
+    return d
+
+
+def link_shape(what: str, level: int, where: str, absolute: bool) -> tuple:
+    """(links, a path that a URL can name through the link)"""
+    base = LINK_LEVELS[level]
+    if what == "file":
+        lp = base + "ln \u00e9.js"
+        return [[lp, where, "data/d.bin" if where == "in" else "vendor x.js", absolute]], lp
+    if what == "dir":
+        lp = base + "lnd"
+        return ([[lp, where, "css" if where == "in" else "sdir", absolute]],
+                lp + ("/site \u00e9.css" if where == "in" else "/inner \u00e9.css"))
+    # a chain of two links: c1 -> c2 (same directory) -> the file
+    c1, c2 = base + "c1.js", base + "c2 x.js"
+    return [[c2, where, "data/d.bin" if where == "in" else "vendor x.js", absolute],
+            [c1, "in", c2, False]], c1
+
+
+def link_scenarios() -> list[dict]:
+    """complete cross: link to a file / to a directory / chain of two links x at the top of the source
+    directory or 1-3 levels down x target inside the source directory or outside it x relative or
+    absolute link text, each for an all_files dependency and for one that lists the path through the
+    link explicitly; plus a listed link that dangles (= a listed file that is missing).  libdir,
+    include_version, host, content shape and source kind rotate."""
+    out = []
+    for what, level, where, absolute, af in itertools.product(["file", "dir", "chain"], [0, 1, 2, 3], ["in", "out"],
+                                                              [False, True], [True, False]):
+        k = len(out)
+        links, through = link_shape(what, level, where, absolute)
+        dep = link_dep("linked", links, [] if af else [through], af, kind="pkg" if k % 5 == 3 else "dir")
+        out.append({"libdir": LIBDIRS[k % 4], "iv": k % 3 != 0, "host": ["doc", "tag", "taglist"][k % 3],
+                    "shape": SHAPES[(k // 2) % len(SHAPES)], "deps": [dep, simple_dep("plain", "1.0", {"p.js": [1]})],
+                    "outside": {"keep.txt": [1]}, "missing": None, "links": [what, level, where, absolute, af]})
+    for k, absolute in enumerate([False, True]):
+        dep = link_dep("linked", [["js/gone.js", "out", "no such file.js", absolute]], ["js/gone.js"], False)
+        out.append({"libdir": LIBDIRS[k], "iv": True, "host": "doc", "shape": "fragment", "deps": [dep],
+                    "outside": {"keep.txt": [1]}, "missing": None, "links": ["dangling listed", 1, "out", absolute, False]})
+    return out
+
+
+def rand_link_scenario(rng) -> dict:
+    """a random local dependency to whose source tree 1-3 links are added"""
+    while True:
+        sc = rand_scenario(rng)
+        loc = [d for d in sc["deps"] if d["kind"] in ("dir", "pkg") and d.get("share") is None
+               and not any(e.get("share") is not None for e in sc["deps"])]
+        if loc:
+            break
+    d = rng.choice(loc)
+    taken = set(d["files"])
+    d["store"] = {"out \u00e9.js": rand_bytes(rng), "od/x y.css": rand_bytes(rng), "od/e/z.js": rand_bytes(rng)}
+    d["links"] = []
+    dirs_in = sorted({p.rsplit("/", 1)[0] for p in d["files"] if "/" in p})
+    for n in range(rng.randrange(1, 4)):
+        base = rng.choice([""] + [x + "/" for x in dirs_in] + ["nl%d/" % n, "nl%d/deep er/" % n])
+        where = rng.choice(["in", "out", "out"])
+        to_dir = rng.random() < 0.4 and (where == "out" or dirs_in)
+        lp = base + ("lnk%d d" % n if to_dir else "lnk%d \u00e9.js" % n)
+        if any(q == lp or q.startswith(lp + "/") or lp.startswith(q + "/") for q in taken):
+            continue
+        if where == "in":
+            target = rng.choice(dirs_in) if to_dir else rng.choice(sorted(d["files"]))
+            if to_dir and (base.startswith(target + "/") or base == target + "/"):
+                continue            # no link to a directory that contains the link (a cycle)
+        else:
+            target = "od" if to_dir else rng.choice(["out \u00e9.js", "od/e/z.js"])
+        d["links"].append([lp, where, target, rng.random() < 0.4])
+        taken.add(lp)
+        if not to_dir and not d["all_files"] and rng.random() < 0.7:
+            d["scripts"].append(lp)
+    if rng.random() < 0.6:
+        d["all_files"] = True
+    return sc
 
 
 def show_available() -> bool:
@@ -2173,6 +2295,13 @@ def run(ctx: Ctx) -> None:
         if ctx.quick:      # every shape x host x include_version; libdir rotates
             shp = [sc for k, sc in enumerate(shp) if (k // 2) % 4 == (k // 8) % 4]
         go(shp, "save", "save_html, content shape x host x libdir x include_version")
+        lks = link_scenarios()
+        if ctx.quick:      # every all_files shape; every other listed one; the dangling ones
+            lks = [sc for k, sc in enumerate(lks) if sc["links"][4] or k % 4 == 1 or sc["links"][0] == "dangling listed"]
+        lks += [rand_link_scenario(rng) for _ in range(ctx.budget(6, 80))]
+        go(lks, "save", "source trees with symbolic links (file / directory / chain; top level or nested; "
+                        "inside or outside the source; relative or absolute) x all_files / listed")
+        go(lks[1::3], "copy", "copy_to, source trees with symbolic links")
         rts = route_scenarios()
         if ctx.quick:      # the route cross completely; a third of the via x post x host cross
             rts = rts[:32] + rts[32 + ctx.seed % 3::3]
